@@ -13,7 +13,7 @@
 EXTENDS Integers, Sequences, FiniteSets, TLC
 
 VARIABLES
-  scfg,    \* [leaves: set of keys, disabled: set of model prefixes (<<"pipeline",g,m>>)]
+  scfg,    \* [leaves: set of keys, disabled: set of model prefixes (<<"pipeline",g,m>>), tree0: the original settings]
   tree,    \* [leaf -> value]
   ran,     \* has any pipeline been executed
   hist     \* Seq([op, path, key, val, out, changed])
@@ -111,15 +111,30 @@ Refused(path, key, v) ==
   \/ ~ InRange(key, v)
   \/ (path = "sweep" /\ IsModelArg(key) /\ ModelOf(key) \in scfg.disabled)
 
+\* What an accepted assignment produces, by entry point:
+\*   override, setattr   change the caller's settings and stay
+\*   sweep               applies to the private copy of one run: the caller's settings stay (C06)
+\*   construct           a new settings object built with this one value, compared with the same
+\*                       construction without it; the caller's settings stay
+\*   yaml                a NEW detector loaded from the original document with this one value
+\*                       (its detector settings are the document's); the caller's settings stay
+\* `changed` = the settings in which the produced object differs from the caller's current ones.
+Persists(path) == path \in {"override", "setattr"}
+NewObject(path) == path = "yaml"
+Produced(path, key, v) ==
+  IF NewObject(path)
+    THEN [k \in DOMAIN tree |-> IF k = key THEN v ELSE IF k[1] = "detector" THEN scfg.tree0[k] ELSE tree[k]]
+    ELSE [tree EXCEPT ![key] = v]
+
 Assign(path, key, v) ==
   /\ IF Refused(path, key, v)
        THEN /\ UNCHANGED << tree, ran >>
             /\ hist' = Append(hist, [op |-> "set", path |-> path, key |-> key, val |-> v,
                                      out |-> "rejected", changed |-> {}])
-       ELSE /\ tree' = [tree EXCEPT ![key] = v]
+       ELSE /\ tree' = IF Persists(path) THEN Produced(path, key, v) ELSE tree
             /\ UNCHANGED ran
-            /\ hist' = Append(hist, [op |-> "set", path |-> path, key |-> key, val |-> v,
-                                     out |-> "ok", changed |-> IF tree[key] = v THEN {} ELSE {key}])
+            /\ hist' = Append(hist, [op |-> "set", path |-> path, key |-> key, val |-> v, out |-> "ok",
+                                     changed |-> { k \in DOMAIN tree : Produced(path, key, v)[k] # tree[k] }])
   /\ UNCHANGED scfg
 
 \* C12: a document with no or several running modes, or no or several detectors, is refused
@@ -130,11 +145,11 @@ LoadDocument(nmodes, ndets) ==
 
 RunPipeline == ran' = TRUE /\ UNCHANGED << scfg, tree, hist >>
 
-SInitWith(c, t) == scfg = c /\ tree = t /\ ran = FALSE /\ hist = << >>
+SInitWith(c, t) == scfg = [leaves |-> c.leaves, disabled |-> c.disabled, tree0 |-> t] /\ tree = t /\ ran = FALSE /\ hist = << >>
 
 \* C08: assigning through a key changes that setting and nothing else
 C08_Frame ==
-  \A k \in 1 .. Len(hist) : hist[k].changed \subseteq {hist[k].key}
+  \A k \in 1 .. Len(hist) : ~ NewObject(hist[k].path) => hist[k].changed \subseteq {hist[k].key}
 \* C08: a key that does not resolve is rejected (no silent no-op, nothing created)
 C08_Rejected ==
   \A k \in 1 .. Len(hist) : (hist[k].op = "set" /\ hist[k].key \notin scfg.leaves) => hist[k].out = "rejected"
